@@ -185,6 +185,29 @@ func runCheck(p *Prog, prop, tier string, timeout, workers int, verbose bool) in
 		}
 		crossConfirmed, crossDisagree = crossCheck(out.Obls, filepath.Join(tmp, "cross"), 5, workers)
 	}
+	// package-wide structural obligations (decided by the generator itself)
+	addStruct := func(kind string, fs []structFinding) {
+		if len(fs) == 0 {
+			// nothing flagged: record that the scan ran
+			fs = []structFinding{{name: "packages#" + kind + ":clean", ok: true, src: "structural scan of the packages on this property's path found no site to report (no store to, or address-taking call on, a package-level variable outside initialisers)"}}
+		}
+		for _, sf := range fs {
+			o := &Obligation{Name: sf.name, Kind: kind, Fn: strings.SplitN(sf.name, "#", 2)[0], Pos: sf.pos, Props: []string{prop}, Solver: "structural", Result: "sat", Src: sf.src}
+			if sf.ok {
+				o.Result = "unsat"
+			}
+			out.Obls = append(out.Obls, o)
+		}
+	}
+	renderPkgs := []string{"/soyhtml", "/soymsg", "/data", "/template", "/ast", "/errortypes"}
+	switch prop {
+	case "C06", "C12":
+		addStruct("recover.covered", p.recoverSiteScan([]string{"/soyhtml"}))
+	case "C08", "C09":
+		addStruct("global.state", p.globalStateScan(renderPkgs))
+	case "C13":
+		addStruct("global.state", p.globalStateScan([]string{"/soyjs", "/soymsg", "/parsepasses", "/parse", "/template", "/ast", ""}))
+	}
 	var extraNotes []string
 	if prop == "C13" {
 		cov, notes := p.mapRangeCoverage(prop, out.Obls)
